@@ -299,6 +299,98 @@ def canon_err(e):
     return "err " + type(e).__name__
 
 
+ORDER = {"taper": 0, "lowpass": 1, "highpass": 1, "bandpass": 1, "bandblock": 1, "smooth": 2}
+
+
+def opts_json(o):
+    j = dict(o)
+    if o["twin"] is not None:
+        j["twin"] = [str(a) for a in o["twin"]]
+    if o["resample"] is not None:
+        j["resample"] = [o["resample"][0], str(o["resample"][1]) if o["resample"][0] == "step" else [str(a) for a in o["resample"][1]]]
+    return j
+
+
+def opts_unjson(j):
+    o = dict(j)
+    if o.get("twin") is not None:
+        o["twin"] = tuple(Fraction(a) for a in o["twin"])
+    if o.get("resample") is not None:
+        kind, v = o["resample"]
+        o["resample"] = (kind, Fraction(v) if kind == "step" else [Fraction(a) for a in v])
+    return o
+
+
+def tagged_clauses(t, x, o, ftype):
+    """get(**options) with the tag stage functions, issued twice on the same object, then a plain get().
+    Returns (first result, second result, [(oracle, expected, observed)])."""
+    from qats import TimeSeries
+    tf, xf = np.array([float(v) for v in t]), np.array([float(v) for v in x])
+    ts = TimeSeries("s", tf.copy(), xf.copy())
+    kw = impl_get(ts, o, ftype=ftype)
+    res, allcalls = [], []
+    with Tags() as tg:
+        for _ in range(2):
+            del tg.calls[:]
+            try:
+                tt, xx = ts.get(**kw)
+                res.append(("ok", np.asarray(tt, dtype=float), np.asarray(xx, dtype=float)))
+            except Exception as e:
+                res.append((canon_err(e),))
+            allcalls.append(list(tg.calls))
+    bad = []
+    t0, x0 = ts.get()
+    if not (np.array_equal(t0, tf) and np.array_equal(x0, xf)):
+        bad.append(("without options the stored arrays are returned" + AFTER, [tf.tolist()[:5], xf.tolist()[:5]],
+                    [np.asarray(t0).tolist()[:5], np.asarray(x0).tolist()[:5]]))
+    if o["resample"] is not None and o["resample"][0] == "arr" and o["twin"] is None:
+        outside = [str(q) for q in o["resample"][1] if q < t[0] or q > t[-1]]
+        if outside and res[0][0] == "ok":
+            bad.append(("resampling to a given array raises instead of extrapolating when a requested time (at any position of the "
+                        "array) is outside the stored span", "an exception (outside: %s)" % ", ".join(outside[:3]), res[0][2].tolist()[:8]))
+    for im, calls in zip(res, allcalls):
+        if im[0] != "ok":
+            continue
+        if len(im[1]) != len(im[2]):
+            bad.append(("time and data have equal length", len(im[1]), len(im[2])))
+        names = [c[0] for c in calls]
+        if [ORDER[n] for n in names] != sorted(ORDER[n] for n in names) or len(names) != o["taper"] + o["filter"] + o["smooth"]:
+            bad.append(("stages applied in the order taper, filter, smooth, each once iff requested",
+                        ["taper"] * o["taper"] + ["filter"] * o["filter"] + ["smooth"] * o["smooth"], names))
+        for c in calls:
+            if c[0] in ("lowpass", "highpass", "bandpass", "bandblock") and len(im[1]) >= 2:
+                if abs(c[1] - (im[1][1] - im[1][0])) > 1e-12 * max(1.0, abs(c[1])):
+                    bad.append(("the filter sees the sampling interval of the series it is applied to", float(im[1][1] - im[1][0]), c[1]))
+    return res[0], res[1], bad
+
+
+def gen_case(rng, t):
+    case = {}
+    hist = gen_history(rng, t)
+    if hist:
+        case["history"] = hist
+    a, b = sorted([t[rng.randrange(len(t))] + Fraction(rng.randint(-1, 1), 16), t[rng.randrange(len(t))] + Fraction(rng.randint(-1, 1), 16)])
+    case["twin"] = [str(a), str(b)]
+    i = rng.randrange(len(t) - 1)
+    q = t[i] + Fraction(rng.randint(0, 8), 8) * (t[i + 1] - t[i])
+    case["qs"] = [str(q), str(t[0] - Fraction(1, 8)), str(t[-1] + Fraction(1, 8))]
+    case["req"] = [str(v) for v in gen_request(rng, t)]
+    d = (t[-1] - t[0]) / rng.choice([1, 2, 3, 5, 7]) * rng.choice([Fraction(1), Fraction(5, 4), Fraction(3, 4)])
+    if (2 * (t[-1] - t[0]) / d).denominator == 1 and (2 * (t[-1] - t[0]) / d).numerator % 2 == 1:
+        d = d * Fraction(9, 8)     # no exact rounding ties (float division of a non-dyadic step)
+    case["step"] = str(d)
+    return case
+
+
+def fail_input(inp, case, keys):
+    j = dict(inp)
+    if case.get("history"):
+        j["history"] = case["history"]
+    for k in keys:
+        j[k] = case[k]
+    return j
+
+
 def run(chk):
     from qats import TimeSeries
     chk.extra["rule"] = RULE
@@ -323,102 +415,60 @@ def run(chk):
         meta.append((t, x, o, rng.choice(["lp", "hp", "bp", "bs"])))
     outs = drv.run(lines)
     for (t, x, o, ftype), out in zip(meta, outs):
-        tf, xf = np.array([float(v) for v in t]), np.array([float(v) for v in x])
-        ts = TimeSeries("s", tf, xf)
-        kw = impl_get(ts, o, ftype=ftype)
-        inp = dict(t=[str(v) for v in t], x=[str(v) for v in x],
-                   opts={k: (None if v is None else ([str(a) for a in v] if k == "twin" else (v[0], str(v[1]) if v[0] == "step" else [str(a) for a in v[1]]))) if k in ("twin", "resample") else v for k, v in o.items()},
-                   filter=ftype)
+        inp = dict(t=[str(v) for v in t], x=[str(v) for v in x], opts=opts_json(o), filter=ftype)
         chk.count("pl.get")
         if any(o[k] for k in o):
             chk.nontriv(repr(inp))
         chk.dist("twin=%d res=%s stages=%d%d%d" % (o["twin"] is not None, "-" if o["resample"] is None else o["resample"][0],
                                                   o["taper"], o["filter"], o["smooth"]))
-        with Tags() as tg:
-            try:
-                tt, xx = ts.get(**kw)
-                im = ("ok", np.asarray(tt, dtype=float), np.asarray(xx, dtype=float))
-            except Exception as e:
-                im = (canon_err(e),)
-            calls = list(tg.calls)
-        if out.startswith("err") or im[0] != "ok":
-            if out.strip() != im[0]:
-                # window empty + step resample: numpy raises IndexError — model `err index`
-                chk.disagree("pl.get", inp, out, im[0])
-            continue
-        mt, mx = [[float(Fraction(v)) for v in part.split()] for part in out[3:].split("|")]
-        ok = len(mt) == len(im[1]) and len(mx) == len(im[2]) and np.allclose(mt, im[1], rtol=1e-12, atol=1e-12) and \
-            np.allclose(mx, im[2], rtol=1e-11, atol=1e-11)
-        if not ok:
-            chk.disagree("pl.get", inp, [mt[:6], mx[:6]], [im[1][:6].tolist(), im[2][:6].tolist()])
-        if len(im[1]) != len(im[2]):
-            chk.fail("time and data have equal length", inp, len(im[1]), len(im[2]))
-        # stage order observed directly
-        names = [c[0] for c in calls]
-        order = {"taper": 0, "lowpass": 1, "highpass": 1, "bandpass": 1, "bandblock": 1, "smooth": 2}
-        if [order[n] for n in names] != sorted(order[n] for n in names) or len(names) != o["taper"] + o["filter"] + o["smooth"]:
-            chk.fail("stages applied in the order taper, filter, smooth, each once iff requested", inp,
-                     ["taper"] * o["taper"] + ["filter"] * o["filter"] + ["smooth"] * o["smooth"], names)
-        for c in calls:
-            if c[0] in ("lowpass", "highpass", "bandpass", "bandblock") and len(im[1]) >= 2:
-                if abs(c[1] - (im[1][1] - im[1][0])) > 1e-12 * max(1.0, abs(c[1])):
-                    chk.fail("the filter sees the sampling interval of the series it is applied to", inp, float(im[1][1] - im[1][0]), c[1])
+        if o["resample"] is not None and o["resample"][0] == "arr":
+            pts = o["resample"][1]
+            chk.dist("request: %s%s" % ("sorted" if pts == sorted(pts) else "unsorted",
+                                        "" if all(t[0] <= q <= t[-1] for q in pts) else
+                                        (" outside-at-end" if not (t[0] <= pts[0] <= t[-1] and t[0] <= pts[-1] <= t[-1]) else " outside-interior")))
+        im1, im2, bad = tagged_clauses(t, x, o, ftype)
+        for oracle, exp, obs in bad:
+            chk.fail(oracle, inp, exp, obs)
+        # the model is compared with the first call and with the same call repeated on the same object
+        for nth, im in (("pl.get", im1), ("pl.get (same call repeated)", im2)):
+            if out.startswith("err") or im[0] != "ok":
+                if out.strip() != im[0]:
+                    # window empty + step resample: numpy raises IndexError — model `err index`
+                    chk.disagree(nth, inp, out, im[0])
+                continue
+            mt, mx = [[float(Fraction(v)) for v in part.split()] for part in out[3:].split("|")]
+            ok = len(mt) == len(im[1]) and len(mx) == len(im[2]) and np.allclose(mt, im[1], rtol=1e-12, atol=1e-12) and \
+                np.allclose(mx, im[2], rtol=1e-11, atol=1e-11)
+            if not ok:
+                chk.disagree(nth, inp, [mt[:6], mx[:6]], [im[1][:6].tolist(), im[2][:6].tolist()])
     # ---- clauses on the unpatched implementation ---------------------------------------------------------------------------------
     M = 300 if chk.quick else 5000
     lines, meta = [], []
+    todo = []
+    for c in core.load_corpus("C11"):
+        todo.append(([Fraction(v) for v in c["t"]], [Fraction(v) for v in c["x"]],
+                     {k: c[k] for k in ("history", "twin", "qs", "req", "step") if k in c}, "corpus"))
     for _ in range(M):
         t, x = gen_series(rng)
-        tf, xf = np.array([float(v) for v in t]), np.array([float(v) for v in x])
-        ts = TimeSeries("s", tf, xf)
+        todo.append((t, x, gen_case(rng, t), "clauses"))
+    for t, x, case, stream in todo:
         inp = dict(t=[str(v) for v in t], x=[str(v) for v in x])
-        chk.count("clauses")
-        t0, x0 = ts.get()
-        if not (np.array_equal(t0, tf) and np.array_equal(x0, xf)):
-            chk.fail("without options the stored arrays are returned", inp, "stored", "different")
-        a, b = sorted([t[rng.randrange(len(t))] + Fraction(rng.randint(-1, 1), 16), t[rng.randrange(len(t))] + Fraction(rng.randint(-1, 1), 16)])
-        tw, xw = ts.get(twin=(float(a), float(b)))
-        keep = [(float(u), float(v)) for u, v in zip(t, x) if a <= u <= b]
-        if list(zip(tw.tolist(), xw.tolist())) != keep:
-            chk.fail("a window returns exactly the samples in the closed window, unchanged and in order", dict(inp, twin=[str(a), str(b)]),
-                     keep[:5], list(zip(tw.tolist(), xw.tolist()))[:5])
-        # interpolation reproduces nodes, is linear in between, raises outside
-        vals = ts.interpolate(tf)
-        if not np.allclose(vals, xf, rtol=1e-12, atol=1e-12):
-            chk.fail("interpolation reproduces stored values at stored times", inp, xf.tolist()[:5], vals.tolist()[:5])
-        i = rng.randrange(len(t) - 1)
-        lam = Fraction(rng.randint(0, 8), 8)
-        q = t[i] + lam * (t[i + 1] - t[i])
-        exp = x[i] + lam * (x[i + 1] - x[i])
-        got = float(ts.interpolate(np.array([float(q)]))[0])
-        if abs(got - float(exp)) > 1e-11 * max(1.0, abs(float(exp))):
-            chk.fail("between two stored samples the value is their linear interpolation", dict(inp, q=str(q)), float(exp), got)
-        for q in (t[0] - Fraction(1, 8), t[-1] + Fraction(1, 8)):
-            try:
-                ts.interpolate(np.array([float(q)]))
-                chk.fail("outside the stored span interpolation raises instead of extrapolating", dict(inp, q=str(q)), "ValueError", "value")
-            except ValueError:
-                pass
-        # resample to a step: grid from first to last sample with the spacing closest to the request
-        d = (t[-1] - t[0]) / rng.choice([1, 2, 3, 5, 7]) * rng.choice([Fraction(1), Fraction(5, 4), Fraction(3, 4)])
-        if (2 * (t[-1] - t[0]) / d).denominator == 1 and (2 * (t[-1] - t[0]) / d).numerator % 2 == 1:
-            d = d * Fraction(9, 8)     # no exact rounding ties (float division of a non-dyadic step)
-        tr, xr = ts.get(resample=float(d))
-        k = len(tr) - 1
-        ratio = (t[-1] - t[0]) / d
-        if not (tr[0] == tf[0] and tr[-1] == tf[-1] and k >= 1 and abs(Fraction(k) - ratio) <= Fraction(1, 2) + Fraction(1, 10 ** 9) and
-                np.allclose(np.diff(tr), float(t[-1] - t[0]) / k, rtol=1e-12)):
-            chk.fail("resampling to a step gives an equidistant grid from the first to the last sample whose spacing is the one closest "
-                     "to the request", dict(inp, step=str(d)), "k=%s" % round(ratio), tr.tolist()[:6])
+        chk.count(stream)
+        hist = case.get("history") or []
+        chk.dist("history: %d earlier get() calls%s" % (len(hist), " (one with taper/filter/smooth and neither window nor resampling)"
+                                                        if any("twin" not in h and "resample" not in h and h for h in hist) else ""))
+        if "req" in case:
+            pts = [Fraction(v) for v in case["req"]]
+            inside = [t[0] <= q <= t[-1] for q in pts]
+            chk.dist("request: %s%s" % ("sorted" if pts == sorted(pts) else "unsorted",
+                                        "" if all(inside) else (" outside-at-end" if not (inside[0] and inside[-1]) else " outside-interior")))
+        ts, bad = direct_clauses(t, x, case)
+        for oracle, keys, exp, obs in bad:
+            chk.fail(oracle, fail_input(inp, case, keys), exp, obs)
         # stand-alone resampling: exact correspondence only for dyadic steps (np.arange's length ceil((b-a)/d) is then exact)
         d2 = (t[-1] - t[0]) / rng.choice([1, 2, 4, 8]) * rng.choice([Fraction(1), Fraction(5, 4), Fraction(3, 4)])
         lines.append("pl.resample %s | %s | %s" % (rat(d2), " ".join(rat(v) for v in t), " ".join(rat(v) for v in x)))
-        meta.append((ts, d2, inp))
-        # modify == get
-        kw = dict(twin=(float(a), float(b)))
-        ts2 = TimeSeries("s", tf, xf)
-        ts2.modify(**kw)
-        if not (np.array_equal(ts2.t, tw) and np.array_equal(ts2.x, xw)):
-            chk.fail("modify(**kwargs) stores what get(**kwargs) returns", dict(inp, twin=[str(a), str(b)]), tw.tolist()[:5], np.asarray(ts2.t).tolist()[:5])
+        meta.append((ts, d2, fail_input(inp, case, [])))
     outs = drv.run(lines)
     for (ts, d, inp), out in zip(meta, outs):
         chk.count("pl.resample")
@@ -459,6 +509,8 @@ def run(chk):
         if len(r) < len(tn) - 1 or len(r) < 1:
             chk.fail("all new times inside the original span are kept", inp, len(tn), len(r))
     chk.sample(dict(t=[0, 1, 2, 3, 4], x=[0, 1, 4, 9, 16], opts="twin=(1,3) taper filter", model=[[1, 2, 3], [5, 11, 21]]))
+    chk.sample(dict(t=[0, 1, 2, 3, 4], x=[0, 1, 4, 9, 16], req=[1, 5, 2], expected="raises (5 is outside the stored span)"))
+    chk.sample(dict(t=[0, 1, 2, 3, 4], x=[0, 1, 4, 9, 16], history=[{"taperfrac": 0.1}], then="get()", expected=[[0, 1, 2, 3, 4], [0, 1, 4, 9, 16]]))
 
 
 def replay(rp):
@@ -473,28 +525,35 @@ def replay(rp):
         except Exception as e:
             print("FAILS: resample raises", e)
             bad += 1
-    else:
-        t = np.array([float(Fraction(v)) for v in inp["t"]])
-        x = np.array([float(Fraction(v)) for v in inp["x"]])
-        ts = TimeSeries("s", t, x)
-        t0, x0 = ts.get()
-        if not (np.array_equal(t0, t) and np.array_equal(x0, x)):
-            print("FAILS: identity")
+    elif "opts" in inp:
+        # tagged pipeline run (stage functions replaced by the tag functions, as in the check)
+        t = [Fraction(v) for v in inp["t"]]
+        x = [Fraction(v) for v in inp["x"]]
+        o = opts_unjson(inp["opts"])
+        im1, im2, fails = tagged_clauses(t, x, o, inp.get("filter", "lp"))
+        for nth, im in (("first call", im1), ("same call repeated", im2)):
+            print(nth, "->", im[0] if im[0] != "ok" else [im[1].tolist()[:8], im[2].tolist()[:8]])
+        for oracle, exp, obs in fails:
+            print("FAILS:", oracle, "| expected", exp, "| observed", obs)
             bad += 1
-        if "twin" in inp:
-            a, b = [float(Fraction(v)) for v in inp["twin"]]
-            tw, xw = ts.get(twin=(a, b))
-            keep = [(u, v) for u, v in zip(t, x) if a <= u <= b]
-            print("window", list(zip(tw, xw))[:6], "expected", keep[:6])
-            if list(zip(tw.tolist(), xw.tolist())) != keep:
-                bad += 1
-        if "q" in inp:
-            q = float(Fraction(inp["q"]))
+    else:
+        t = [Fraction(v) for v in inp["t"]]
+        x = [Fraction(v) for v in inp["x"]]
+        case = {k: inp[k] for k in ("history", "twin", "qs", "req", "step") if k in inp}
+        if "q" in inp:      # replay files written before `qs`
+            case["qs"] = [inp["q"]]
+        ts, fails = direct_clauses(t, x, case)
+        for oracle, keys, exp, obs in fails:
+            print("FAILS:", oracle, "| expected", exp, "| observed", obs)
+            bad += 1
+        if "dt" in inp:
+            d = Fraction(inp["dt"])
             try:
-                print("interp", ts.interpolate(np.array([q])))
-            except ValueError as e:
-                print("raises", e)
-        if "step" in inp:
-            print("grid", ts.get(resample=float(Fraction(inp["step"])))[0])
-    print("replay: %d failing clause(s) (stage-order replays: re-run ./check C11)" % bad)
+                print("resample(dt=%s) ->" % d, np.asarray(ts.resample(dt=float(d))).tolist()[:8])
+            except Exception as e:
+                print("resample(dt=%s) raises" % d, type(e).__name__, e)
+                if 0 < d <= t[-1] - t[0]:
+                    print("FAILS: stand-alone resampling of the full duration to a positive step not exceeding it succeeds")
+                    bad += 1
+    print("replay: %d failing clause(s)" % bad)
     return 1 if bad else 0
